@@ -140,6 +140,28 @@ pub fn gen_assoc(r: &mut Rng) -> (MProgram, Vec<AssocGoal>) {
         r.shuffle(&mut cs);
         let n_impls = 2 + r.below(4);
         for (cn, ar) in cs.into_iter().take(n_impls) {
+            if ar > 0 && tr.nparams == 0 && r.chance(45) {
+                // several disjoint impls on the same constructor, one of them possibly with a repeated parameter; the
+                // declaration order is shuffled (an impl that does not apply may well come first)
+                let a = || MTy::nullary("A");
+                let b = || MTy::nullary("B");
+                let mut heads: Vec<(usize, MTy)> = match cn {
+                    "Pair" => vec![(1, MTy::app("Pair", vec![MTy::Var(0), MTy::Var(0)])), (0, MTy::app("Pair", vec![a(), b()])), (0, MTy::app("Pair", vec![b(), a()])), (1, MTy::app("Pair", vec![MTy::nullary("C"), MTy::app("Vec", vec![MTy::Var(0)])]))],
+                    _ => vec![(0, MTy::app(cn, vec![a()])), (0, MTy::app(cn, vec![b()])), (1, MTy::app(cn, vec![MTy::app("Bx", vec![MTy::Var(0)])])), (1, MTy::app(cn, vec![MTy::app("Pair", vec![MTy::Var(0), MTy::Var(0)])])), (0, MTy::app(cn, vec![MTy::app("Pair", vec![a(), b()])]))],
+                };
+                r.shuffle(&mut heads);
+                let keep = 2 + r.below(heads.len() - 1);
+                for (nv, h) in heads.into_iter().take(keep) {
+                    let val = match r.below(5) {
+                        0 if nv > 0 => MTy::Var(0),
+                        1 if nv > 0 => MTy::app("Vec", vec![MTy::Var(0)]),
+                        2 => MTy::app("Pair", vec![MTy::nullary("A"), MTy::nullary("C")]),
+                        _ => MTy::nullary(*r.pick(&["A", "B", "C"])),
+                    };
+                    p.impls.push(MImpl { nvars: nv, head: MPred::new(&tr.name, vec![h]), wheres: vec![], positive: true, assoc_vals: vec![(assoc_of(&tr.name), val)], ..Default::default() });
+                }
+                continue;
+            }
             let self_ty = MTy::app(cn, (0..ar).map(MTy::Var).collect());
             let mut args = vec![self_ty];
             for _ in 0..tr.nparams {
